@@ -16,8 +16,8 @@ inserted on every path that reaches build_delta_command (without them the zone s
 (g) the watermark is the MAXIMUM over everything materialised, whatever order the batches arrive in: MaterializedSink::append and bootstrap_from_manifest change self.high_water only through
 HighWaterMark::advance (never by assigning one frame's mark); delta batches arrive memtable-first and shard by shard, so 'the last frame' is not the newest event.
 """
-FLOOR = 11
-REQUIRED = ["C14.a", "C14.b", "C14.c", "C14.d1", "C14.d2", "C14.e", "C14.f", "C14.g", "C14.h", "C14.i", "C14.j"]
+FLOOR = 13
+REQUIRED = ["C14.a", "C14.b", "C14.c", "C14.d1", "C14.d2", "C14.e", "C14.f", "C14.g", "C14.h", "C14.i", "C14.j", "C14.k", "C14.l"]
 
 
 def run(ctx):
@@ -294,3 +294,54 @@ def run(ctx):
                 out.append(x)
         return out
     ctx.run("C14.j", "K11 SIB + K4", "MaterializationPruner::apply vs ZoneMetadataWriter", "zone metadata is stored in zone-id order, the order the SHOW pruner indexes it by", j_)
+
+    def k_(inst):
+        # a stored frame gives back the value that went in: a zero-length cell is null only where the null bitmap says so;
+        # for a String column a zero length is the empty string
+        b = F.fn("codec::decoder::Decoder::decode")
+        nulls = [bb for (bb, j_, v_, d_) in b.aggregates("ScalarValue", "Null")]
+        zero = []
+        for i_ in sorted(b.live_blocks()):
+            if b.blocks[i_]["t"]["t"] != "switch":
+                continue
+            si = b.switch_info(i_)
+            if si and si["kind"] == "bool" and si.get("def", {}).get("r") == "bin" and si["def"]["op"] == "Eq" and str(si["def"]["b"].get("k", "")).startswith("0_"):
+                zero.append((i_, si))
+        inst.sites = ["null cells built at %d sites, zero-length tests: %d" % (len(nulls), len(zero))]
+        if not nulls:
+            raise AnchorMissing("ScalarValue::Null in Decoder::decode")
+        strcmp = []
+        for c_ in b.calls:
+            if not c_.cleanup and re.search(r"::(eq|ne)$", c_.nname) and any(l[0] == "const" and l[1].strip('"') == "String" for a_ in c_.args for l in b.origins(a_)):
+                strcmp += bool_result_edge(b, c_, c_.nname.endswith("ne"))
+        bad = []
+        for i_, si in zero:
+            for nb in nulls:
+                if b.dominates_edge((i_, si["true"]), nb) and not any(b.dominates_edge(e, nb) for e in strcmp):
+                    bad.append(("empty-string-read-as-null", "Decoder::decode turns every zero-length variable-size cell into Null, whatever the column type: an empty string (\"\") that QUERY returns comes back as null from SHOW once it is served from a stored frame", sp(b, nb)))
+        return bad[:1]
+    ctx.run("C14.k", "K8 GUARD", "materialize::store::codec::decoder::Decoder::decode", "an empty string survives the frame round trip", k_)
+
+    def l_(inst):
+        # REMEMBER keeps a row-based incremental view: a sequence query (pairs, LIMIT counted in sequences) cannot be refreshed
+        # that way and is refused before anything is stored
+        b = F.fn("remember::remember_query_with_data_dir")
+        load = one(b, r"MaterializationCatalog::load$")
+        seq = enum_switches_on(b, lambda L: has_origin(L, None, proj_contains=[".event_sequence"]), r"option::Option")
+        lnk = enum_switches_on(b, lambda L: has_origin(L, None, proj_contains=[".link_field"]), r"option::Option")
+        inst.sites = [sp(b, load.bb)] + [sp(b, i_) + " sequence test" for i_, _ in seq]
+        if not seq:
+            return [("remember-accepts-sequence", "REMEMBER stores the result of a sequence query like a selection: LIMIT is re-applied to rows (one sequence of a LIMIT 2), every SHOW appends further pairs as delta and a pair that straddles the high-water mark is returned by halves", sp(b, load.bb))]
+        # after "has an event sequence" (and, if tested, "has a link field") the catalog is out of reach
+        src = []
+        for i_, si in seq:
+            for t_ in edges_for_variant(si, "Some"):
+                src.append((i_, t_))
+        inner = [(i_, t_) for i_, si in lnk for t_ in edges_for_variant(si, "Some") if any(b.dominates_edge(e, i_) for e in src)]
+        if inner:
+            src = inner
+        src = through_bool_join(b, src)
+        if load.bb in b.reach(0, src_edges=src):
+            return [("remember-accepts-sequence", "a command with an event sequence and a link field reaches the materialization catalog in remember_query_with_data_dir", sp(b, load.bb))]
+        return []
+    ctx.run("C14.l", "K2 CUT", "remember::remember_query_with_data_dir", "only selection queries are remembered", l_)
